@@ -109,7 +109,9 @@ def run(tier: str) -> int:
                 orders = []
                 for p in ps:
                     env = execb.Env(Q)
-                    q, excs = env.run(p["calls"])
+                    # under the generic class every order is executed inside a branching history (sibling continuations are
+                    # derived from each intermediate builder and discarded): commutation must survive them
+                    q, excs = env.run(p["calls"], decoys=(d == "generic"))
                     rexc, text = "", ""
                     try:
                         text = str(q)
